@@ -10,7 +10,7 @@ CONSTANTS
   MaxPauses = 0
   MaxRestarts = 0
   Kinds = {"waive", "equal", "future"}
-  Pols = {"leader", "all"}
+  Pols = {"leader"}
   SrcSet = {"request"}
   Vias = {"api"}
   MaxHolds = 2
